@@ -7,6 +7,7 @@ import (
 	"fmt"
 	"sort"
 	"strings"
+	"sync"
 	"testing"
 	"time"
 
@@ -47,9 +48,9 @@ const (
 	c05MountDflt = 30 * time.Minute
 )
 
-func newC05World(t *testing.T, transactional bool) *c05World {
+func newC05World(t *testing.T, transactional, ha bool) *c05World {
 	hub := newRecHub()
-	tc := mustBoot(t, coreOpts{transactional: transactional,
+	tc := mustBoot(t, coreOpts{transactional: transactional, ha: ha,
 		logical: map[string]logical.Factory{"recbe": hub.factory("recbe", logical.TypeLogical)}})
 	tc.mount("rb", "recbe", map[string]any{"default_lease_ttl": "30m", "max_lease_ttl": "2h"})
 	tc.mustOK(tc.req(logical.UpdateOperation, "sys/auth/token/tune", tc.root, map[string]any{"max_lease_ttl": "3h", "default_lease_ttl": "1h"}), "tune")
@@ -132,10 +133,12 @@ func (w *c05World) trackingInvariant() string {
 }
 
 func TestVerif_C05_Leases(t *testing.T) {
-	rec := verifx.NewRecorder("C05", "leases", "rapid state machine on a real core with a recording backend (mount default 30m / max 2h) and the token mount tuned to max 3h: issue leased secrets (ttl/max_ttl/renewable generated) and tokens (ttl, explicit_max_ttl, period), renew with generated increments through sys/leases/renew and auth/token/renew(-self), revoke, make the backend refuse revocation (irrevocable leases), restart on the same storage, restart on the store after a crash prefix of the last operation's writes; oracle: after every issue/renew the granted expiry never exceeds issue time + effective maximum (+1 s truncation), expired/revoked/non-renewable leases cannot be renewed, and at quiescence the lease ids in storage are all tracked in exactly one of pending / nonexpiring / irrevocable; non-trivial = a renewal that was capped or refused, or a restart/crash with >=2 stored leases")
+	rec := verifx.NewRecorder("C05", "leases", "rapid state machine on a real core with a recording backend (mount default 30m / max 2h) and the token mount tuned to max 3h: issue leased secrets (ttl/max_ttl/renewable generated) and tokens (ttl, explicit_max_ttl, period), renew with generated increments through sys/leases/renew and auth/token/renew(-self), revoke, make the backend refuse revocation (irrevocable leases), restart on the same storage, restart on the store after a crash prefix of the last operation's writes, restart during which one read of a stored lease entry fails (at once, or only after the unseal call returned), step-down and re-acquisition of leadership on an HA-enabled node; oracle: a node that serves requests after a failed lease restore tracks every stored lease (or it has shut itself down); after every issue/renew the granted expiry never exceeds issue time + effective maximum (+1 s truncation), expired/revoked/non-renewable leases cannot be renewed, and at quiescence the lease ids in storage are all tracked in exactly one of pending / nonexpiring / irrevocable; non-trivial = a renewal that was capped or refused, or a restart/crash with >=2 stored leases")
 	defer rec.Flush()
 	rapid.Check(t, func(rt *rapid.T) {
-		w := newC05World(t, rapid.Bool().Draw(rt, "transactionalStorage"))
+		ha := fairIndex(rt, "haEnabled", 3) == 0
+		w := newC05World(t, rapid.Bool().Draw(rt, "transactionalStorage"), ha)
+		stepdowns := 0
 		defer func() { w.tc.shutdown() }()
 		nontrivial := false
 		restarts := 0
@@ -384,12 +387,136 @@ func TestVerif_C05_Leases(t *testing.T) {
 					nontrivial = true
 				}
 			},
+			// leadership change on an HA-enabled node: the active node steps down (its expiration manager is torn down)
+			// and acquires leadership again, which restores the leases from storage
+			"step-down": func(rt *rapid.T) {
+				if !ha {
+					rt.Skip("not an HA node")
+				}
+				if stepdowns >= 3 {
+					rt.Skip("enough leadership changes")
+				}
+				stepdowns++
+				stored := len(c05Stored(t, w.tc.c))
+				if err := w.tc.stepDown(); err != nil {
+					fail("not-active-after-step-down", fmt.Sprintf("the only node of the cluster did not become active again after a step-down: %v", err))
+					return
+				}
+				w.logf("step-down stored-leases=%d", stored)
+				if stored >= 2 {
+					nontrivial = true
+				}
+			},
+			// restart during which ONE read of a stored lease entry fails while the expiration manager restores the
+			// leases: either at once, or (like a storage timeout) only after the unseal call has returned. Afterwards
+			// the node must either refuse to serve (the restore error handler shuts the core down) or track every
+			// stored lease; serving with a stored lease nobody follows to expiry breaks the property.
+			"restart-with-restore-read-fault": func(rt *rapid.T) {
+				if restarts >= 2 {
+					rt.Skip("enough restarts")
+				}
+				stored := len(c05Stored(t, w.tc.c))
+				if stored == 0 {
+					rt.Skip("no stored lease")
+				}
+				restarts++
+				k := 1 + fairIndex(rt, "failedLeaseRead", stored)
+				late := fairIndex(rt, "faultAfterUnsealReturned", 2) == 0
+				w.tc.shutdown()
+				var mu sync.Mutex
+				cnt := 0
+				var victim *verifx.Op
+				release := make(chan struct{})
+				prec := w.tc.rec
+				prec.Gate = func(o *verifx.Op) {
+					if o.Kind != "get" || !strings.Contains(o.Key, "sys/expire/id/") {
+						return
+					}
+					mu.Lock()
+					cnt++
+					mine := victim == nil && cnt == k
+					if mine {
+						victim = o
+					}
+					mu.Unlock()
+					if mine && late {
+						select {
+						case <-release:
+						case <-time.After(20 * time.Second):
+						}
+					}
+				}
+				prec.SetFault(func(o *verifx.Op) error {
+					mu.Lock()
+					defer mu.Unlock()
+					if o == victim {
+						return verifx.ErrInjected
+					}
+					return nil
+				})
+				ntc, err := w.tc.restartOn(w.tc.phys)
+				close(release)
+				fired := func() bool { mu.Lock(); defer mu.Unlock(); return victim != nil }
+				outcome := ""
+				if err != nil {
+					outcome = "unseal-refused"
+				} else {
+					// let the restore finish, then give the error handler (Core.Shutdown) a moment to seal the core
+					deadline := time.Now().Add(15 * time.Second)
+					for ntc.c.expiration != nil && ntc.c.expiration.inRestoreMode() && time.Now().Before(deadline) {
+						time.Sleep(time.Millisecond)
+					}
+					grace := time.Now().Add(300 * time.Millisecond)
+					for fired() && !ntc.c.Sealed() && time.Now().Before(grace) {
+						time.Sleep(time.Millisecond)
+					}
+					switch {
+					case ntc.c.Sealed():
+						outcome = "shut-down"
+					default:
+						outcome = "serving"
+						ow := *w
+						ow.tc = ntc
+						if msg := ow.trackingInvariant(); msg != "" && fired() {
+							when := "during-unseal"
+							if late {
+								when = "after-unseal"
+							}
+							prec.Gate = nil
+							prec.SetFault(nil)
+							w.logf("restart with read fault on lease read %d/%d (%s) -> serving, %s", k, stored, when, msg)
+							w.tc = ntc
+							fail("stored-lease-not-tracked:restore-read-fault-"+when, fmt.Sprintf("after a restart during which read %d of %d stored lease entries failed (%s) the node serves requests, yet %s", k, stored, when, msg))
+							return
+						}
+					}
+				}
+				prec.Gate = nil
+				prec.SetFault(nil)
+				w.logf("restart with read fault on lease read %d/%d late=%v fired=%v -> %s", k, stored, late, fired(), outcome)
+				rec.Class(fmt.Sprintf("restore-read-fault late=%v fired=%v -> %s", late, fired(), outcome), 1)
+				if outcome != "serving" {
+					if ntc != nil {
+						ntc.shutdown()
+					}
+					// the operator restarts the node once more, storage healthy again
+					ntc, err = w.tc.restartOn(w.tc.phys)
+					if err != nil {
+						fail("restart-failed", fmt.Sprintf("core does not restart after a failed lease restore: %v", err))
+						return
+					}
+				}
+				w.tc = ntc
+				if fired() && stored >= 2 {
+					nontrivial = true
+				}
+			},
 			"": func(rt *rapid.T) {
 				if msg := w.trackingInvariant(); msg != "" {
 					fail("stored-lease-not-tracked", msg)
 				}
 			},
 		})
-		rec.Case(fmt.Sprintf("restarts=%d", restarts), nontrivial, verifx.Digest(strings.Join(w.log, "|")), func() any { return map[string]any{"history": w.log} })
+		rec.Case(fmt.Sprintf("restarts=%d ha=%v stepdowns=%d", restarts, ha, stepdowns), nontrivial, verifx.Digest(strings.Join(w.log, "|")), func() any { return map[string]any{"history": w.log} })
 	})
 }
